@@ -214,3 +214,44 @@ def control_line_times(tier, seed):
     return dict(evaluations=evals, distinct_nontrivial=len(distinct), failures=failures[:10], samples=samples, exhaustive=False,
                 scope="%d [CONTROLS] lines 'LINK .. AT TIME / CLOCKTIME t' with t as decimal hours (binary-exact fractions), h:mm, h:mm:ss and h:mm[:ss] AM / PM: "
                       "the instant read equals the instant written (EPANET manual), a TIME line gives a simulation-time condition, a CLOCKTIME line a daily clock-time condition" % evals)
+
+
+def times_section_notations(tier, seed):
+    """the [TIMES] section in the notations the EPANET manual allows (decimal hours, h:mm, h:mm:ss; START CLOCKTIME with AM / PM), as the reader
+    turns them into seconds: every key x every notation, against the instants written"""
+    import os
+    import tempfile
+    import wntr
+    warnings.simplefilter("ignore")
+    evals, distinct, failures, samples = 0, set(), [], []
+    base = os.path.join(os.path.dirname(os.path.dirname(os.path.abspath(__file__))), ".scratch")
+    os.makedirs(base, exist_ok=True)
+    keys = [("DURATION", "duration", 1), ("HYDRAULIC TIMESTEP", "hydraulic_timestep", 2), ("QUALITY TIMESTEP", "quality_timestep", 2), ("RULE TIMESTEP", "rule_timestep", 2),
+            ("PATTERN TIMESTEP", "pattern_timestep", 2), ("PATTERN START", "pattern_start", 2), ("REPORT TIMESTEP", "report_timestep", 2), ("REPORT START", "report_start", 2)]
+    notations = [("1.5", 5400), ("0.25", 900), ("2", 7200), ("2.0", 7200), ("1:30", 5400), ("0:15", 900), ("1:30:30", 5430), ("00:05:00", 300), ("12.75", 45900), ("26:00", 93600)]
+    clock = [("3:30 AM", 12600), ("3:30 PM", 55800), ("12:00 AM", 0), ("12:15 PM", 44100), ("11:59:59 PM", 86399), ("6 AM", 21600)]
+    head = "[JUNCTIONS]\n J1 0 1\n[RESERVOIRS]\n R1 10\n[PIPES]\n P1 R1 J1 100 300 100 0 Open\n[OPTIONS]\n Units LPS\n Headloss H-W\n"
+    cases = [(k, attr, txt, want) for (k, attr, _n) in keys for (txt, want) in notations] + [("START CLOCKTIME", "start_clocktime", txt, want) for (txt, want) in clock]
+    for i, (k, attr, txt, want) in enumerate(cases):
+        fd, fn = tempfile.mkstemp(suffix=".inp", dir=base)
+        os.close(fd)
+        try:
+            with open(fn, "w") as f:
+                f.write(head + "[TIMES]\n Duration 48:00\n Hydraulic Timestep 1:00\n %s %s\n[END]\n" % (k.title(), txt))
+            try:
+                wn = wntr.network.WaterNetworkModel(fn)
+                got = int(getattr(wn.options.time, attr))
+            except Exception as e:
+                failures.append(dict(line="%s %s" % (k, txt), raised=repr(e)[:160]))
+                continue
+        finally:
+            os.unlink(fn)
+        evals += 1
+        distinct.add((k, txt))
+        if got != want:
+            failures.append(dict(line="%s %s" % (k, txt), read_as_seconds=got, manual_says=want))
+        if len(samples) < 3:
+            samples.append(dict(line="%s %s" % (k, txt), seconds=got))
+    return dict(evaluations=evals, distinct_nontrivial=len(distinct), failures=failures[:10], samples=samples, exhaustive=False,
+                scope="%d INP files whose [TIMES] section gives one key in one notation (8 keys x 10 notations: decimal hours with binary-exact fractions, h:mm, h:mm:ss; "
+                      "START CLOCKTIME x 6 AM / PM forms): the option read equals the instant written" % evals)
